@@ -19,6 +19,8 @@ type C08Rule struct {
 	Name string `json:"name"`
 	Sal  int64  `json:"sal"`
 	Desc string `json:"desc"`
+	// NoSal: the rule header has no salience clause (Sal is 0 then)
+	NoSal bool `json:"nosal,omitempty"`
 }
 
 type C08Op struct {
@@ -36,7 +38,8 @@ type C08Case struct {
 	Ops []C08Op `json:"ops"`
 }
 
-var c08Universe = []string{"n0", "n1", "n2", "n3", "n4", "n5", "n6", "n7"}
+// blanks are part of a name: "n0" and " n0", "n7" and "n7 " are different rules
+var c08Universe = []string{"n0", "n1", "n2", "n3", "n4", "n5", "n6", "n7", " n0", "n7 "}
 
 type c08Entry struct {
 	sal  int64
@@ -50,7 +53,11 @@ func c08Text(rules []C08Rule, tagBase int64) (string, map[string]int64) {
 	for i, r := range rules {
 		tag := tagBase + int64(i)
 		tags[r.Name] = tag
-		fmt.Fprintf(&b, "rule %q %q salience %d\nbegin\n  S(@name)\n  info(@name, @sal, @desc)\n  return %d\nend\n", r.Name, r.Desc, r.Sal, tag)
+		sal := fmt.Sprintf(" salience %d", r.Sal)
+		if r.NoSal {
+			sal = ""
+		}
+		fmt.Fprintf(&b, "rule %q %q%s\nbegin\n  S(@name)\n  info(@name, @sal, @desc)\n  return %d\nend\n", r.Name, r.Desc, sal, tag)
 	}
 	return b.String(), tags
 }
@@ -64,7 +71,11 @@ func genC08Rules(t *rapid.T, pfx string, step int) []C08Rule {
 		if pct(t, fmt.Sprintf("%sext%d", pfx, i), 6) {
 			sal = salExtremes[uni(t, fmt.Sprintf("%sextv%d", pfx, i), 0, len(salExtremes)-1)]
 		}
-		out = append(out, C08Rule{Name: perm[i], Sal: sal, Desc: fmt.Sprintf("d%d_%d", step, i)})
+		r := C08Rule{Name: perm[i], Sal: sal, Desc: fmt.Sprintf("d%d_%d", step, i)}
+		if pct(t, fmt.Sprintf("%snosal%d", pfx, i), 12) {
+			r.NoSal, r.Sal = true, 0
+		}
+		out = append(out, r)
 	}
 	return out
 }
